@@ -11,7 +11,7 @@ for d in $ids; do
   prop=${d%%-*}
   if [ -n "$(git -C /repo status --short)" ]; then echo "ABORT: /repo not clean"; exit 3; fi
   if ! git -C /repo apply /verif/seeded/$d/patch.diff 2>/dev/null; then echo "$d APPLY-FAILED"; continue; fi
-  out=$(VERIF_KEEP_EVIDENCE=1 ./check $prop quick 2>&1); e=$?
+  out=$(./check $prop quick 2>&1); e=$?
   git -C /repo checkout -- . ; git -C /repo clean -fdq
   if [ $e -eq 1 ] && echo "$out" | grep -q "^VIOLATION property=$prop"; then echo "$d caught"; else echo "$d MISSED exit=$e"; missed=$((missed+1)); fi
 done
